@@ -1336,3 +1336,71 @@ def container_reuse_in_loops(path):
             visit_ForFromStatNode = _loop
         W().visit(node.body)
     return out, seen[0]
+
+
+# CUDD keeps two permutations: perm[index] = level, invperm[level] = index.
+INDEX_SOURCES = {'Cudd_NodeReadIndex', 'Cudd_ReadInvPerm', 'Cudd_ReadInvPermZdd'}
+LEVEL_SOURCES = {'Cudd_ReadPerm', 'Cudd_ReadPermZdd', 'level_of_var'}
+WANTS_INDEX = {'Cudd_ReadPerm', 'Cudd_ReadPermZdd'}
+WANTS_LEVEL = {'Cudd_ReadInvPerm', 'Cudd_ReadInvPermZdd'}
+
+
+def index_level_confusions(path):
+    """An int known to be a variable INDEX handed to a primitive that expects a LEVEL, or the
+    other way round (known = assigned in the same function from a primitive or attribute whose
+    result kind is fixed).  -> (offenders [(cls, function, line, text)], sink calls inspected)"""
+    tree, text = cy_parse(path)
+    src = text.split('\n')
+    out = []
+    seen = [0]
+
+    def kind_of(e, kinds):
+        while isinstance(e, ExprNodes.TypecastNode):
+            e = e.operand
+        if isinstance(e, ExprNodes.NameNode):
+            return kinds.get(e.name)
+        if isinstance(e, ExprNodes.AttributeNode):
+            if e.attribute == '_index':
+                return 'index'
+            if e.attribute == 'level':
+                return 'level'
+            return None
+        if isinstance(e, ExprNodes.IndexNode):
+            t = _etext(e.base)
+            if t.endswith('_index_of_var'):
+                return 'index'
+            return None
+        if isinstance(e, (ExprNodes.SimpleCallNode, ExprNodes.GeneralCallNode)):
+            f = _fname(e)
+            if f in INDEX_SOURCES:
+                return 'index'
+            if f in LEVEL_SOURCES:
+                return 'level'
+        return None
+    for cls, name, node in cy_functions(tree):
+        kinds = {}
+
+        class V(TreeVisitor):
+            def visit_Node(s, n):
+                s.visitchildren(n)
+
+            def visit_SingleAssignmentNode(s, n):
+                s.visitchildren(n)
+                if isinstance(n.lhs, ExprNodes.NameNode):
+                    k = kind_of(n.rhs, kinds)
+                    if k:
+                        kinds[n.lhs.name] = k
+                    else:
+                        kinds.pop(n.lhs.name, None)
+
+            def visit_SimpleCallNode(s, n):
+                f = _fname(n)
+                if (f in WANTS_INDEX or f in WANTS_LEVEL) and len(n.args) >= 2:
+                    seen[0] += 1
+                    k = kind_of(n.args[1], kinds)
+                    want = 'index' if f in WANTS_INDEX else 'level'
+                    if k is not None and k != want:
+                        out.append((cls, name, n.pos[1], src[n.pos[1] - 1].strip(), k, want))
+                s.visitchildren(n)
+        V().visit(node.body)
+    return out, seen[0]
